@@ -577,7 +577,12 @@ pub fn run_proc(ctx: &mut Ctx, c: &Corpus, verif: &str) -> Vec<Replay> {
             _ => true,
         });
         ctx.stats.inc("model_validation_runs");
-        if a_exit != base.exit || a.stderr != base.stderr || a_files != base.changed {
+        if a_exit == base.exit && a_files == base.changed && a.stderr != base.stderr && crate::job::top_level_errors(&a.stderr) == crate::job::top_level_errors(&base.stderr) {
+            // same outcome, same files, same number of diagnostics, other
+            // wording (the two file servers phrase an I/O error differently):
+            // measured, not an error of the harness
+            ctx.stats.inc("model_wording_differences");
+        } else if a_exit != base.exit || a.stderr != base.stderr || a_files != base.changed {
             ctx.stats.inc("model_divergence");
             ctx.stats.note(
                 "harness_errors",
